@@ -60,6 +60,25 @@ PER_PROP_ASSUMPTIONS = {
 }
 
 
+def prepare_rt_root():
+    """rt_main's crate root is the runtime's own lib.rs, re-rooted: inner crate attributes dropped and every
+    `mod x;` pointed at the repository's file, so `crate::...` paths inside the runtime sources resolve as they do upstream."""
+    import re
+    src = open(os.path.join(REPO, "runtime", "src", "lib.rs")).read()
+    lines = []
+    for line in src.split("\n"):
+        st = line.strip()
+        if st.startswith("#![") or st.startswith("//!"):
+            continue
+        m = re.fullmatch(r"(\s*)((?:pub(?:\([^)]*\))?\s+)?)mod\s+(\w+)\s*;", line)
+        if m:
+            line = '%s#[path = "%s/runtime/src/%s.rs"]\n%s%smod %s;' % (m.group(1), REPO, m.group(3), m.group(1), m.group(2), m.group(3))
+        lines.append(line)
+    os.makedirs(os.path.join(CACHE, "gen"), exist_ok=True)
+    with open(os.path.join(CACHE, "gen", "rt_root.rs"), "w") as fh:
+        fh.write("// generated on every run by /verif/lib/engine_e1.py from %s/runtime/src/lib.rs\n" % REPO + "\n".join(lines))
+
+
 def prepare_cpp_writer(out):
     """C12: regenerate the C++ runtime header with the working tree's tool and translate its writer callbacks."""
     import cppwriter
@@ -90,6 +109,7 @@ def run(prop):
     prefix = prop.lower() + "_"
     out = {"results": [], "crate_of": {}, "inconclusive": [], "tools": {}, "wall": 0.0}
     ht = 3000 if tier() == "thorough" else 900
+    prepare_rt_root()
     if prop == "C12" and prepare_cpp_writer(out):
         feats = (feats or []) + ["cppwriter"]
     for crate, tag, serves, needs_lock in CRATES:
